@@ -19,6 +19,7 @@ class Story:
         self.shape = shape
         self.eng = engine()
         self.sim = chain.Sim(reorg_limit=shape.get('reorg_limit', 10), activation=0, concrete=True)
+        self.sim.merkle_headers = True
         self.fs = fullsim.FullSim(self.sim, deviations=shape.get('deviations', 0),
                                   max_steps=shape.get('max_steps', 900))
         self.fs.sched.window = shape.get('window')
